@@ -167,7 +167,7 @@ def main(argv=None):
             stats["near_tie_steered"], wall, slow[0][0] if slow else 0, slow[0][1] if slow else "",
         )
     )
-    extra = {k: v for k, v in sorted(stats.items()) if k not in (
+    extra = {k: v for k, v in sorted(stats.items()) if not k.startswith("sig:") and k not in (
         "states", "transitions", "executions", "nontrivial_executions", "fresh_replays", "wall_task_s")}
     print("counters:", json.dumps(extra))
 
@@ -176,6 +176,11 @@ def main(argv=None):
     if new:
         os.makedirs(os.path.join(HERE, "replays"), exist_ok=True)
         seen = set()
+        new.sort(key=lambda a: (len(a["events"]), json.dumps(a["events"])))
+        shown_sig = Counter()
+        for k, v in sorted(stats.items()):
+            if k.startswith("sig:"):
+                print("  violations with signature %s: %d" % (k[4:], v))
         for art in new:
             from mc.explorer import artefact_id
 
@@ -186,7 +191,8 @@ def main(argv=None):
             path = os.path.join(HERE, "replays", "%s-%s.json" % (prop, aid))
             with open(path, "w") as f:
                 json.dump(art, f, indent=1, sort_keys=True)
-            if len(seen) <= 10:
+            shown_sig[art["signature"]] += 1
+            if shown_sig[art["signature"]] <= 2 and len(shown_sig) <= 12:
                 print("  [%s] %s: %s" % (art["system"], art["sub"], art["message"][:400]))
                 print("VIOLATION property=%s replay=%s" % (prop, path))
         return 1
